@@ -341,8 +341,36 @@ void vf_run_case(vf::Ctx& ctx, long idx)
         if (!(P.dmin > 1e3L * unit<T>() * P.normAs)) { ctx.count("skipped_shift_on_eigenvalue"); ctx.count("evals"); return; }
     }
     vw::OpCtl ctl;
+    // storage options of the library's wrappers (exploration cases only, chosen from the case number so that no random draw is spent): the default
+    // (Lower, ColMajor, full symmetric array), or Upper / RowMajor with ONLY the documented triangle meaningful - the other one holds 7s (dense) or is not stored (sparse)
+    const int variant = corpus ? 0 : (int) (idx / GROUP_NK[C01_GROUP]) % 4;
+    ctx.count(variant == 1 ? "wrapper_options/Upper" : (variant == 3 ? "wrapper_options/RowMajor" : "wrapper_options/default"));
+    auto junk_lower = [&](auto M) { for (int j = 0; j < P.n; j++) for (int i = j + 1; i < P.n; i++) M(i, j) = typename decltype(M)::Scalar(7); return M; };
+    auto junk_upper = [&](auto M) { for (int j = 0; j < P.n; j++) for (int i = 0; i < j; i++) M(i, j) = typename decltype(M)::Scalar(7); return M; };
+    (void) junk_lower; (void) junk_upper;
     try
     {
+        if (variant == 1 || variant == 3)
+        {
+            bool done = true;
+            switch (P.kind)
+            {
+#if C01_GROUP == 0
+                case 0: { MatT Au = junk_lower(A); vw::Wrap<Spectra::DenseSymMatProd<T, Eigen::Upper>> op(&ctl, Au); Spectra::SymEigsSolver<decltype(op)> es(op, P.nev, P.ncv); run_history<decltype(es), T>(ctx, P, es, ctl); break; }
+                case 1: { SpT S = SpT(A.sparseView()).template triangularView<Eigen::Upper>(); vw::Wrap<Spectra::SparseSymMatProd<T, Eigen::Upper>> op(&ctl, S); Spectra::SymEigsSolver<decltype(op)> es(op, P.nev, P.ncv); run_history<decltype(es), T>(ctx, P, es, ctl); break; }
+#elif C01_GROUP == 1
+                case 3: { auto Au = junk_lower(AH); vw::Wrap<Spectra::DenseHermMatProd<CT, Eigen::Upper>> op(&ctl, Au); Spectra::HermEigsSolver<decltype(op)> es(op, P.nev, P.ncv); run_history<decltype(es), CT>(ctx, P, es, ctl); break; }
+#else
+                case 5:
+                    if (variant == 1) { MatT Au = junk_lower(A); vw::Wrap<Spectra::DenseSymShiftSolve<T, Eigen::Upper>> op(&ctl, Au); Spectra::SymEigsShiftSolver<decltype(op)> es(op, P.nev, P.ncv, P.sigma); run_history<decltype(es), T>(ctx, P, es, ctl); }
+                    else { Eigen::Matrix<T, Eigen::Dynamic, Eigen::Dynamic, Eigen::RowMajor> Ar = junk_upper(A); vw::Wrap<Spectra::DenseSymShiftSolve<T, Eigen::Lower, Eigen::RowMajor>> op(&ctl, Ar); Spectra::SymEigsShiftSolver<decltype(op)> es(op, P.nev, P.ncv, P.sigma); run_history<decltype(es), T>(ctx, P, es, ctl); }
+                    break;
+                case 6: { SpT S = SpT(A.sparseView()).template triangularView<Eigen::Upper>(); vw::Wrap<Spectra::SparseSymShiftSolve<T, Eigen::Upper>> op(&ctl, S); Spectra::SymEigsShiftSolver<decltype(op)> es(op, P.nev, P.ncv, P.sigma); run_history<decltype(es), T>(ctx, P, es, ctl); break; }
+#endif
+                default: done = false; break;
+            }
+            if (done) goto finished;
+        }
         switch (P.kind)
         {
 #if C01_GROUP == 0
@@ -365,6 +393,7 @@ void vf_run_case(vf::Ctx& ctx, long idx)
         ctx.inconclusive(std::string("operator refused input: ") + e.what());
         ctx.count("evals");
     }
+finished:
     if (!ctl.bad.empty())
         ctx.violation((P.tag.empty() ? std::string(KIND[P.kind]) : P.tag) + "/operator-buffers", vf::J().kv("what", ctl.bad).kv("n", P.n).kv("ncv", P.ncv).str());
 }
